@@ -2,18 +2,19 @@
 
 // C05 — an object just read or reported present survives old_blocks more rotations.
 //
-//   seq/*   every operation sequence of the stated depth over {upload of a fresh block-sized
-//           filler, upload of a fresh small object, upload of T, Get(T), FindMissing(T)} for every
-//           (old,current,new) in {0,1,2}x{1,2}x{1,2,3}, both growth policies, flat and hierarchical.
-//           Oracle: after a successful Get / a FindMissing that omits T, T stays present in the
-//           index (non-touching probe: the real KeyLocationMap.Get under the store lock) until
-//           old+1 further NewBlock calls have been made; and at the end a real Get succeeds.
-//           Repeat clause: immediately repeating the Get / FindMissing writes nothing and allocates nothing.
-//   conc/*  two concurrent touches of the same old object plus an upload, all schedules within the bound.
+//	seq/*   every operation sequence of the stated depth over {upload of a fresh block-sized
+//	        filler, upload of a fresh small object, upload of T, Get(T), FindMissing(T)} for every
+//	        (old,current,new) in {0,1,2}x{1,2}x{1,2,3}, both growth policies, flat and hierarchical.
+//	        Oracle: after a successful Get / a FindMissing that omits T, T stays present in the
+//	        index (non-touching probe: the real KeyLocationMap.Get under the store lock) until
+//	        old+1 further NewBlock calls have been made; and at the end a real Get succeeds.
+//	        Repeat clause: immediately repeating the Get / FindMissing writes nothing and allocates nothing.
+//	conc/*  two concurrent touches of the same old object plus an upload, all schedules within the bound.
 package main
 
 import (
 	"bytes"
+	"context"
 	"fmt"
 	"time"
 
@@ -105,9 +106,16 @@ func seqBody(g lstore.Geometry, depth int) func() {
 		T := mk(g, "T", 0, 3)
 		tr := &tracker{}
 		fill, small := 0, 0
+		nops := 5
+		if g.Persistent {
+			nops = 6 // plus: one step of each syncer loop that has work (data sync + state write, release)
+		}
 		for i := 0; i < depth; i++ {
-			k := vsched.ChooseFree("choice", 5)
+			k := vsched.ChooseFree("choice", nops)
 			switch k {
+			case 5:
+				n := s.StepSyncers(context.Background(), 1)
+				vsched.Obs("sync=%d", n)
 			case 0:
 				fill++
 				o := mk(g, "F", 1000+fill, 8)
@@ -339,6 +347,81 @@ func concBody(g lstore.Geometry) func() {
 	}
 }
 
+// concTwoBody: two different objects X and Y, both aged into old blocks, touched concurrently by two callers
+// (the refresh of one is in progress while the other caller arrives); each must then survive old+1 further
+// allocations counted from the completion of its own touch.
+func concTwoBody(g lstore.Geometry) func() {
+	return func() {
+		med := lstore.NewMedia(g)
+		s := lstore.Open(g, med)
+		in := inst(g)
+		objs := []lstore.Obj{mk(g, "X", 1, 3), mk(g, "Y", 2, 3)}
+		for _, o := range objs {
+			if err := s.PutOK(o.Digest, o.Content); err != nil {
+				vsched.HarnessFail("prefill: %v", err)
+			}
+		}
+		i := 0
+		for !needsRefresh(s, objs[0]) || !needsRefresh(s, objs[1]) {
+			i++
+			o := lstore.CASObj("F", in, []byte(fmt.Sprintf("fill%04d", i)))
+			if err := s.PutOK(o.Digest, o.Content); err != nil {
+				vsched.HarnessFail("prefill filler: %v", err)
+			}
+			if i > 12 || !present(s, objs[0].Digest) || !present(s, objs[1].Digest) {
+				vsched.HarnessFail("could not place X and Y in old blocks (geometry %s)", g)
+			}
+		}
+		var wg vsync.WaitGroup
+		at := []int{-1, -1}
+		touch := func(k, kind int) {
+			defer wg.Done()
+			T := objs[k]
+			if kind == 0 {
+				d, err := s.Get(T.Digest)
+				vsched.Obs("G%s=%s", T.Name, status.Code(err))
+				if err == nil {
+					if !bytes.Equal(d, T.Content) {
+						failf("wrong-bytes", "Get(%s) = %q", T.Name, d)
+					}
+					at[k] = s.Alloc.NewBlocks
+				}
+			} else {
+				miss, err := s.FindMissing(T.Digest)
+				vsched.Obs("FM%s=%s", T.Name, status.Code(err))
+				if err == nil && !miss[T.Digest.String()] {
+					at[k] = s.Alloc.NewBlocks
+				}
+			}
+		}
+		wg.Add(2)
+		kinds := vsched.ChooseFree("choice", 4)
+		vsched.GoNamed("touchX", false, func() { touch(0, kinds&1) })
+		vsched.GoNamed("touchY", false, func() { touch(1, kinds>>1) })
+		wg.Wait()
+		for j := 0; j < 12; j++ {
+			pending := false
+			for k, T := range objs {
+				if at[k] >= 0 && s.Alloc.NewBlocks < at[k]+g.Old+1 {
+					pending = true
+					if !present(s, T.Digest) && s.IndexDiscards() == 0 {
+						failf("touched-object-lost-early", "%s was reported present / returned when %d blocks had been allocated; now %d have been (old_blocks=%d) and it is gone", T.Name, at[k], s.Alloc.NewBlocks, g.Old)
+					}
+					vsched.Mark()
+				}
+			}
+			if !pending {
+				break
+			}
+			o := lstore.CASObj("F", in, []byte(fmt.Sprintf("late%04d", j)))
+			s.PutOK(o.Digest, o.Content)
+		}
+		if s.RBF.Opened != s.RBF.Closed {
+			failf("reader-leak", "%d readers opened, %d closed", s.RBF.Opened, s.RBF.Closed)
+		}
+	}
+}
+
 // needsRefresh reports whether T currently lies in an old block (its Get would refresh): observed
 // without touching, by asking the real block map.
 func needsRefresh(s *lstore.Store, T lstore.Obj) bool {
@@ -408,6 +491,20 @@ func main() {
 		}
 	}
 	mc.GroupBudget["two-names"] = time.Duration(ev.Pick(r, 150, 1200)) * time.Second
+	mc.GroupSpace["seq-persistent"] = fmt.Sprintf("persistent block list (epochs, deferred release until the state file is rewritten), immutable policy: (old,current,new) in {1,2}x{1,2}x{2,3} x {flat,hierarchical}: all 6^%d sequences over the five operations plus one step of the syncer loops", depth)
+	for _, hier := range []bool{false, true} {
+		for o := 1; o <= 2; o++ {
+			for c := 1; c <= 2; c++ {
+				for n := 2; n <= 3; n++ {
+					g := base
+					g.Old, g.Current, g.New, g.Hierarchical, g.Persistent, g.Spare = o, c, n, hier, true, 3
+					g.IndexOnDevice = (o+c+n)%2 == 0
+					scs = append(scs, mc.Scenario{Name: fmt.Sprintf("seq-persistent/h%v-o%dc%dn%d", hier, o, c, n), Group: "seq-persistent", Bound: 0, Body: seqBody(g, depth)})
+				}
+			}
+		}
+	}
+	mc.GroupBudget["seq-persistent"] = time.Duration(ev.Pick(r, 150, 1200)) * time.Second
 	mc.GroupBudget["seq"] = time.Duration(ev.Pick(r, 150, 1200)) * time.Second
 	for _, hier := range []bool{false, true} {
 		for _, o := range []int{1, 2} {
@@ -415,6 +512,9 @@ func main() {
 			g.Old, g.Current, g.New, g.Hierarchical, g.DataGates = o, 1, 1, hier, true
 			if hier {
 				g.New = 2
+			}
+			if o == 1 || r.Thorough() {
+				scs = append(scs, mc.Scenario{Name: fmt.Sprintf("conc-two/h%v-o%d", hier, o), Space: "X and Y both in old blocks: {Get,FindMissing}(X) || {Get,FindMissing}(Y), then rotations until each bound; geometry " + g.String(), Bound: ev.Pick(r, 2, 3), Body: concTwoBody(g), Budget: time.Duration(ev.Pick(r, 40, 300)) * time.Second})
 			}
 			scs = append(scs, mc.Scenario{Name: fmt.Sprintf("conc/h%v-o%d", hier, o), Space: "T in an old block: Get(T) || {Get(T) or FindMissing(T)} || Put(U), then rotations until the bound; geometry " + g.String(), Bound: ev.Pick(r, 2, 3), Body: concBody(g), Budget: time.Duration(ev.Pick(r, 40, 300)) * time.Second})
 		}
